@@ -53,7 +53,7 @@ struct ObjInfo {
     std::atomic<int> holders{0};
     std::atomic<int> state{0};                  // 0 none, 1 live, 2 destroyed
     std::atomic<int> recycle_expected{0};       // a recycling release of this object was issued
-    std::atomic<int> rec_active{0}, rec_started{0};
+    std::atomic<uint64_t> rec_word{0};           // (recycling releases started << 32) | recycling releases in progress: one RMW per transition
     std::atomic<int> moved{0};                  // handed out to the harness by a move-out release
     std::atomic<uint64_t> max_release_now{0};   // photon::now read before the latest release
     std::atomic<int> key{0};
@@ -265,14 +265,15 @@ static void before_release(int k, uint32_t id) {
     vh::event();
 }
 
-struct RecCtx { int a0, s0; };
+struct RecCtx { uint32_t a0, s0; };
 static RecCtx before_recycle(Worker& w, int k, uint32_t id) {
     auto& I = g_info[id];
     I.recycle_expected.fetch_add(1, vh::MO);
     g_key[k].recyclers.fetch_add(1, vh::MO);
     RecCtx c;
-    c.a0 = I.rec_active.fetch_add(1, vh::MO);
-    c.s0 = I.rec_started.fetch_add(1, vh::MO) + 1;
+    uint64_t prev = I.rec_word.fetch_add((1ull << 32) + 1, vh::MO);     // start and "in progress" in one step
+    c.a0 = (uint32_t)prev;
+    c.s0 = (uint32_t)(prev >> 32) + 1;
     if (I.holders.load(vh::MO) > 0) c_waited_recycler.add();
     w.blk_obj.store(id, vh::MO);
     w.blk_key.store(k, vh::MO);
@@ -283,8 +284,9 @@ static void after_recycle(Worker& w, int k, uint32_t id, const RecCtx& c, const 
     auto& I = g_info[id];
     w.blk_kind.store(0, std::memory_order_release);
     int h = I.holders.load(vh::MO);
-    bool overlapped = c.a0 > 0 || I.rec_started.load(vh::MO) != c.s0;
-    I.rec_active.fetch_sub(1, vh::MO);
+    uint64_t endw = I.rec_word.fetch_sub(1, vh::MO);
+    // another recycling release of this object was in progress when this one started, or started before this one ended
+    bool overlapped = c.a0 > 0 || (uint32_t)(endw >> 32) != c.s0;
     g_key[k].recyclers.fetch_sub(1, vh::MO);
     if (overlapped) c_recycle_demoted.add();
     if (h > 0)
@@ -476,6 +478,41 @@ static void v2_worker(Worker& w) {
     }
 }
 
+
+// A lost wake-up leaves every photon thread parked, so every vCPU OS thread sleeps in its event engine. If some
+// OS thread of this process is runnable (state R/D) the silence may be plain CPU starvation on a loaded machine:
+// then nothing is proved (the driver re-runs the execution alone).
+#include <dirent.h>
+static bool all_os_threads_sleeping() {
+    // idle vCPUs poll (short wake-ups), so a thread counts as runnable only if it is seen in state R/D in most samples
+    int self = (int)syscall(SYS_gettid);
+    std::map<int, int> busy;
+    const int rounds = 20;
+    for (int round = 0; round < rounds; ++round) {
+        if (DIR* d = opendir("/proc/self/task")) {
+            while (auto e = readdir(d)) {
+                if (e->d_name[0] < '0' || e->d_name[0] > '9') continue;
+                int tid = atoi(e->d_name);
+                if (tid == self) continue;
+                char path[64], buf[512];
+                snprintf(path, sizeof(path), "/proc/self/task/%d/stat", tid);
+                FILE* f = fopen(path, "r");
+                if (!f) continue;
+                size_t n = fread(buf, 1, sizeof(buf) - 1, f);
+                fclose(f);
+                buf[n] = 0;
+                char* rp = strrchr(buf, ')');
+                if (rp && rp[1] == ' ' && rp[2] != 'S') busy[tid]++;
+            }
+            closedir(d);
+        }
+        struct timespec ts = {0, 40 * 1000 * 1000};
+        nanosleep(&ts, nullptr);
+    }
+    for (auto& kv : busy) if (kv.second * 3 >= rounds) return false;
+    return true;
+}
+
 // ------------------------------------------------------------------------------------------ supervisor
 static bool on_stuck(std::string& key, std::string& what, std::string& wit) {
     vh::JArr arr;
@@ -506,6 +543,12 @@ static bool on_stuck(std::string& key, std::string& what, std::string& wit) {
         }
     }
     wit = arr.str();
+    if (proved && !all_os_threads_sleeping()) {
+        proved = false;
+        key = "runnable-threads";
+        what = "no progress, but OS threads of the process are runnable (CPU starvation suspected); ledger=" + wit;
+        return false;
+    }
     if (!proved) { key = "objcache-workload:" + g_section; what = "no progress; blocked=" + wit; }
     return proved;
 }
